@@ -46,17 +46,23 @@ impl Slot {
     /// Generates a named slot like `$xyz`
     pub fn named(s: &str) -> Slot {
         if let Ok(x) = s.parse::<u32>() {
-            return Slot(x * 4); // numeric
+            // numbers too large for the encoding are interned like any other name.
+            if x <= u32::MAX / 4 {
+                return Slot(x * 4); // numeric
+            }
         }
 
         SLOT_TABLE.with_borrow_mut(|tab| {
             if s.starts_with("f") {
                 if let Ok(x) = s[1..].parse::<u32>() {
-                    let out = x * 4 + 1;
-                    if tab.fresh_idx <= out {
-                        tab.fresh_idx = out + 4;
+                    // `f<n>` too large for the encoding (or for the fresh counter after it) is interned like any other name.
+                    if x <= (u32::MAX - 5) / 4 {
+                        let out = x * 4 + 1;
+                        if tab.fresh_idx <= out {
+                            tab.fresh_idx = out + 4;
+                        }
+                        return Slot(out); // fresh
                     }
-                    return Slot(out); // fresh
                 }
             }
 
